@@ -1,5 +1,6 @@
 PROP = {
-    "groups": ["relay", "e2e-tmux-relay"],
+    "shared_groups": "also runs the neighbouring groups whose code can break this property: relayneg (described under C14); tunnel-relay (described under C17)",
+    "groups": ["relay", "e2e-tmux-relay", "relayneg", "tunnel-relay"],
     "rule": "scripted relay runs on the real trzsz.NewTrzszRelay over io.Pipes (1-3 transfers per relay; outcomes confirm / cancel / "
             "malformed ACT / malformed CFG; client type-ahead racing with the trigger, junk in front of the handshake line, the line split "
             "over several reads, the tail of the line and following bytes in one read, bytes after the line, transfer traffic racing with "
